@@ -44,7 +44,7 @@ def impl_case(case):
             "provider": case["provider"], "search_path": case.get("search_path"), "recursive": case.get("recursive", False),
             "patterns": case.get("patterns", []), "global_repo": case["global_repo"],
             "builtins": ["".join("def %s; " % e for e in b) for b in case["builtins"]], "ops": case["ops"],
-            "strs": [[render(v) for v in st] for st in case.get("strs", [])]}
+            "strs": [[render(v) for v in st] for st in case.get("strs", [])], "langs": case.get("langs")}
 
 
 # ------------------------------------------------------------------ Coq encoding
@@ -82,6 +82,11 @@ def coq_case(case, expansions, fn="run_case"):
         else:
             i, v = o["file"], o["version"]
             ops.append("OWrite %d %s" % (i, c_file(case["files"][i]["versions"][v], expansions[i][v])))
+    if case.get("langs"):
+        lo = [[i for i, lg in enumerate(case["langs"]) if f["path"].endswith(lg["ext"])][0] for f in case["files"]]
+        return "%s %s %s %s %s" % ("run_case_ml_hash" if fn.endswith("hash") else "run_case_ml",
+                                   core.coq_list([core.coq_bool(lg["global_repo"]) for lg in case["langs"]]),
+                                   core.coq_list([str(x) for x in lo]), core.coq_list(files), core.coq_list(ops))
     builtins = ["(mkFile [] %s []%%N false false false)" % c_names(b) for b in case["builtins"]]
     return "%s %s %s %s %s %s" % (fn, core.coq_bool(case["global_repo"]), core.coq_bool(case["provider"] == "rrel"),
                                         core.coq_list(builtins), core.coq_list(files), core.coq_list(ops))
@@ -102,10 +107,17 @@ def show_model(m):
 def canon_op(o):
     if o["res"] == "written":
         return "w"
-    return "|".join([o["res"], ",".join(str(x) for x in o["reads"]), o.get("main", "-"),
-                     ";".join(show_model(m) for m in o.get("models", [])),
-                     show_dict(o["all"]) if "all" in o else "-",
-                     show_dict(o["grepo"]) if o["grepo"] is not None else "-"])
+    extra = []
+    if "grepos" in o:
+        extra = [";".join("-" if g is None else show_dict(g) for g in o["grepos"])]
+    return "|".join(extra_first(o) + extra)
+
+
+def extra_first(o):
+    return [o["res"], ",".join(str(x) for x in o["reads"]), o.get("main", "-"),
+            ";".join(show_model(m) for m in o.get("models", [])),
+            show_dict(o["all"]) if "all" in o else "-",
+            show_dict(o["grepo"]) if o["grepo"] is not None else "-"]
 
 
 def canon(out):
@@ -212,7 +224,8 @@ def oracle(case, out):
                 bad.append(("C17", "one model registered under two files: %s" % r["all"], k))
             if f in allm and allm[f] != r["main"]:
                 bad.append(("C17", "main model is not the registered model of its file", k))
-            if glob and r["grepo"] != r["all"]:
+            norepo = is_str and lazy and not cur_str[0]["refs"]      # no repository object at all (see RepoShow.show_load_gen)
+            if glob and r["grepo"] != r["all"] and not norepo:
                 bad.append(("C17", "the model's repository is not the metamodel's global repository", k))
             for m in r["models"]:
                 mt = TOK_RE.match(m["tok"])
@@ -290,6 +303,136 @@ def oracle(case, out):
                 bad.append(("C18", "load failed with %s although %s (stale state?)" % (res, why), k))
         grepo_before = r["grepo"] or []
     return bad
+
+
+SEPARATE_REPOS = "ml_model_cached_in_another_languages_repository"
+
+
+def oracle_ml(case, out):
+    """C17 / C18 on histories over several registered languages (each metamodel with or without its own global
+    repository): a file is read at most once per load and not at all when the global repository of ITS language (or of
+    the importing language) holds it; every local model / reference target / all_models entry for such a file is the
+    cached object; one model per file; a failed load leaves no model it created anywhere."""
+    bad = []
+    exp = out["expansions"]
+    langs = case["langs"]
+    nl = len(langs)
+    lang_of = [[i for i, lg in enumerate(langs) if f["path"].endswith(lg["ext"])][0] for f in case["files"]]
+    ver = [0] * len(case["files"])
+    repos = [([] if lg["global_repo"] else None) for lg in langs]
+    failed_ops = set()
+    for k, (o, r) in enumerate(zip(case["ops"], out["ops"])):
+        if o["op"] == "write":
+            ver[o["file"]] = o["version"]
+            continue
+        f = o["file"]
+        L = lang_of[f]
+        res = r["res"]
+        own = dict(repos[L]) if repos[L] is not None else {}
+
+        def cached_tok(g):
+            if g in own:
+                return own[g]
+            rg = repos[lang_of[g]]
+            return dict(rg).get(g) if rg is not None else None
+        toks = set()
+        for m in r.get("models", []):
+            toks.add(m["tok"]); toks.update(t for _, t in m["local"]); toks.update(t[0] for t in m["targets"] if t)
+        toks.update(t for _, t in r.get("all", []))
+        for g in (r.get("grepos") or []):
+            toks.update(t for _, t in (g or []))
+        for t in toks:
+            mt = TOK_RE.match(t)
+            if not mt:
+                bad.append(("C17", "two distinct model objects for one file in one load (%s)" % t, k))
+            elif int(mt.group(3)) in failed_ops:
+                bad.append(("C18", "model %s created by the failed load %s is still reachable" % (t, mt.group(3)), k))
+        if res.startswith("EXC"):
+            bad.append(("C17", "unexpected exception " + res, k))
+        if len(set(r["reads"])) != len(r["reads"]):
+            bad.append(("C17", "a file was opened more than once in one load: reads=%s" % r["reads"], k))
+        for m in r["oracle"]:
+            bad.append(("C17", m, k))
+        for g in r["reads"]:
+            if cached_tok(g) is not None:
+                bad.append(("C17", "file %d was read although the global repository of its language (or of the importing one) holds it as %s" % (g, cached_tok(g)), k))
+        if res == "ok":
+            if f in own:
+                if r["main"] != own[f] or r["reads"]:
+                    bad.append(("C17", "repeated load of cached file %d: main=%s cached=%s reads=%s" % (f, r["main"], own[f], r["reads"]), k))
+            else:
+                want, todo = set(), [f]
+                while todo:
+                    g = todo.pop()
+                    if g in want or (g != f and cached_tok(g) is not None):
+                        continue
+                    want.add(g)
+                    for st in exp[g][ver[g]]:
+                        todo.extend(st)
+                if set(r["reads"]) != want:
+                    bad.append(("C17", "files read %s, import closure minus cached files %s" % (sorted(r["reads"]), sorted(want)), k))
+            allm = dict(r["all"])
+            if len(set(allm.values())) != len(allm):
+                bad.append(("C17", "one model registered under two files: %s" % r["all"], k))
+            if f in allm and allm[f] != r["main"]:
+                bad.append(("C17", "main model is not the registered model of its file", k))
+            for g, t in allm.items():
+                if g != f and f not in own and cached_tok(g) is not None and t != cached_tok(g):
+                    bad.append(("C17", "file %d is cached as %s in a global repository but the load uses another instance %s" % (g, cached_tok(g), t), k))
+            for m in r["models"]:
+                # known finding (classifier): the model was taken from the global repository of ANOTHER language's
+                # metamodel; its local models and references were fixed when that repository loaded it
+                foreign = [SEPARATE_REPOS] if any(rg is not None and li != L and m["tok"] in [x for _, x in rg] for li, rg in enumerate(repos)) \
+                    and int(TOK_RE.match(m["tok"]).group(3)) != k else []
+                for g, t in m["local"]:
+                    if allm.get(g) != t:
+                        bad.append(("C17", "local model %s of %s is not the single model of file %s (%s)" % (t, m["tok"], g, allm.get(g)), k) + tuple(foreign))
+                for t in m["targets"]:
+                    mt = t and TOK_RE.match(t[0])
+                    if mt and t[0] != m["tok"] and allm.get(int(mt.group(1))) != t[0]:
+                        bad.append(("C17", "reference target in %s (from %s) is not in the single model of its file" % (t[0], m["tok"]), k) + tuple(foreign))
+        else:
+            failed_ops.add(k)
+            for li in range(nl):
+                if repos[li] is None:
+                    continue
+                after = (r.get("grepos") or [None] * nl)[li] or []
+                new = [e for e in after if e not in repos[li]]
+                gone = [e for e in repos[li] if e not in after]
+                fresh = [e for e in new if TOK_RE.match(e[1]) and int(TOK_RE.match(e[1]).group(3)) == k]
+                if gone or fresh:
+                    bad.append(("C18", "after the failed load (%s) the global repository of language %d lost %s / kept new models %s" % (res, li, gone, fresh), k))
+        if r.get("grepos"):
+            repos = [(list(g) if g is not None else None) for g in r["grepos"]]
+    return bad
+
+
+def ml_case(n, edges, langs_of, globs, provider="fqn_uri", fail=None, ops=None, search_path=None):
+    """Import graph over files of several registered languages: file i has language langs_of[i] (extension .model / .typ)."""
+    exts = [".model", ".typ", ".dat"]
+    names = ["a", "b", "c", "d"]
+    paths = [names[i] + exts[langs_of[i]] for i in range(n)]
+    files = []
+    for i in range(n):
+        imps = [paths[j] for (a, j) in edges if a == i]
+        refs = ["e%d" % j for (a, j) in edges if a == i] + ["e5"]
+        files.append({"path": paths[i], "versions": [{"imports": list(imps), "elems": ["e%d" % i, "e5"], "refs": refs}]})
+    if fail:
+        i, ph = fail
+        v = files[i]["versions"][0]
+        if ph == "unres":
+            v["refs"] = v["refs"] + ["q1"]
+        elif ph == "nofile":
+            v["imports"] = v["imports"] + ["nothere.model"]
+        else:
+            v[ph] = True
+    for f in files:
+        v = f["versions"][0]
+        f["versions"].append({"imports": [u for u in v["imports"] if u != "nothere.model"], "elems": list(v["elems"]), "refs": [x for x in v["refs"] if x != "q1"]})
+    case = {"provider": provider, "recursive": False, "search_path": search_path, "global_repo": globs[langs_of[0]], "builtins": [], "files": files, "dirs": [],
+            "langs": [{"ext": exts[i], "global_repo": globs[i]} for i in range(len(globs))]}
+    case["ops"] = ops if ops is not None else [{"op": "load", "file": n - 1}, {"op": "load", "file": 0}, {"op": "load", "file": n - 1}, {"op": "load", "file": 0}]
+    return case
 
 
 # ------------------------------------------------------------------ generators
@@ -451,8 +594,8 @@ def gen_case(r, n_files=None, fail=None, with_history=True):
         for _ in range(r.range(1, 2)):
             vis = [e for k in (reach[0] if grepo and reach else []) for e in files[k]["versions"][0]["elems"]] + [e for b in case["builtins"] for e in b]
             elems = r.sample(NAMES[:6], r.range(1, 2))
-            # (RREL '+m:' creates the model's repository per reference: a string main without references has none - not modelled)
-            v0 = {"imports": [], "elems": elems, "refs": [r.choice(elems + vis) for _ in range(r.range(1 if provider == "rrel" else 0, 2))]}
+            # (RREL '+m:' creates the model's repository per reference: a string main without references has none)
+            v0 = {"imports": [], "elems": elems, "refs": [r.choice(elems + vis) for _ in range(r.range(0, 2))]}
             if fail and r.chance(0.6):
                 ph = r.choice(["syn", "obj", "mp", "unres"])
                 if ph == "unres":
@@ -595,7 +738,7 @@ def evaluate(chk, pid, cases, outs, vals, errs):
     for c, o, mv in zip(cases, outs, vals):
         ic = canon(o)
         nfiles = closure_size(c, o)
-        key = json.dumps([c["provider"], c["global_repo"], c["builtins"], [f["versions"] for f in c["files"]], c["ops"], c.get("search_path"), c.get("patterns"), c.get("strs")], sort_keys=True)
+        key = json.dumps([c["provider"], c["global_repo"], c["builtins"], [f["versions"] for f in c["files"]], c["ops"], c.get("search_path"), c.get("patterns"), c.get("strs"), c.get("langs")], sort_keys=True)
         chk.count(key, nontrivial=nfiles >= 2)
         chk.stat("provider:" + c["provider"])
         chk.stat("global_repo:%s" % c["global_repo"])
@@ -609,10 +752,13 @@ def evaluate(chk, pid, cases, outs, vals, errs):
             chk.stat("with string-loaded main models")
         if mv is not None and mv != ic:
             disagreements.append({"case": c, "impl": ic, "model": mv})
-        bad = oracle(c, o)
+        bad = oracle_ml(c, o) if c.get("langs") else oracle(c, o)
+        if c.get("langs"):
+            chk.stat("several registered languages")
         mine = [b for b in bad if b[0] == pid]
         if mine:
-            failures.append({"case": c, "impl": ic, "model": mv, "what": "; ".join("op %d: %s" % (b[2], b[1]) for b in mine[:4]), "tags": []})
+            tags = sorted({b[3] for b in mine if len(b) > 3}) if all(len(b) > 3 for b in mine) else []
+            failures.append({"case": c, "impl": ic, "model": mv, "what": "; ".join("op %d: %s" % (b[2], b[1]) for b in mine[:4]), "tags": tags})
         if chk.cov["evaluations"] % 97 == 5:
             chk.sample({"provider": c["provider"], "global_repo": c["global_repo"], "files": {f["path"]: render(f["versions"][0]) for f in c["files"]},
                         "ops": c["ops"], "outcome": ic})
